@@ -48,6 +48,8 @@ TRANSIENT_OK = {
 }
 MUTATORS = {'append', 'extend', 'insert', 'pop', 'remove', 'clear', 'update', 'add', 'discard', 'sort', 'reverse', 'setdefault', 'popitem'}
 STEP_ROOTS = ['step', '_step_gvcfs', '_step_vdses']
+# (reference, contig, interval size) points additionally evaluated on real contig lengths (the verdict is computed, not assumed)
+PROBES = [('GRCh38', 'chr17', 10470), ('GRCh38', 'chr10', 50000), ('GRCh37', '13', 12591)]
 # keys whose JSON form is produced by Encoder.default rather than by to_dict itself
 ENCODER_TYPED = {'dataset_type': 'CombinerOutType of tmatrix (Encoder.default -> tmatrix.to_dict)', 'gvcf_type': 'tmatrix (Encoder.default -> to_dict)'}
 
@@ -593,15 +595,27 @@ def check_partitioning(ctx: Ctx, m: pf.Module) -> None:
     ctx.unit('partition_domain_points', n)
     # real contigs small enough to evaluate: the mitochondrial contigs
     real: List[Tuple[str, str, int]] = []
+    lengths: Dict[Tuple[str, str], int] = {}
     for rg, rel in (('GRCh37', 'hail/hail/resources/reference/grch37.json'), ('GRCh38', 'hail/hail/resources/reference/grch38.json')):
         try:
             data = json.loads(read_repo(rel))
             for c in data['contigs'][:25]:
+                lengths[(rg, c['name'])] = c['length']
                 if c['length'] <= 20000:
                     real.append((rg, c['name'], c['length']))
         except (AnalysisError, KeyError, ValueError):
             continue
     real_cov = real_len = None
+    for rg, name, S in PROBES:
+        L = lengths.get((rg, name))
+        if L is None:
+            continue
+        cp, lp = _judge(simulate(L, S), L, S, inc_start, inc_end)
+        n += 1
+        if cp and real_cov is None:
+            real_cov = f'{rg} contig {name} (length {L}) with interval_size={S}: {cp}'
+        if lp and real_len is None:
+            real_len = f'{rg} contig {name} (length {L}) with interval_size={S}: {lp}'
     for rg, name, L in real:
         for S in range(100, 201):
             cp, lp = _judge(simulate(L, S), L, S, inc_start, inc_end)
